@@ -10,6 +10,8 @@ def nontrivial(tok, res):
         return "up=" in res
     if tok[0] == "silent":
         return True
+    if tok[0] == "ereq":
+        return " ans=ok" in res
     if tok[0] == "plug":
         return res.startswith("m=")
     return False
@@ -17,6 +19,10 @@ def nontrivial(tok, res):
 
 def result_class(r):
     import re
+    if " ans=" in r:
+        m = re.search(r" st=(\d+)", r)
+        a = re.search(r" ans=(\w+) c100=(\d)", r)
+        return "err:%s:%s ans=%s c100=%s" % ("noroute" if " rt=- " in r else "route", m.group(1) if m else "?", a.group(1) if a else "?", a.group(2) if a else "?")
     if r.startswith("be=") and (" pre=" in r or " up=" in r and " ! st=" in r and " b=" in r and " fr=" not in r):
         # fault ops: who was reached, how the message ended at its final reader
         m = re.search(r" end=(\w+)", r)
@@ -36,6 +42,20 @@ def result_class(r):
         m = re.search(r" st=(\d+)", r)
         return "plugin:%s%s" % (m.group(1) if m else "?", "" if "582d466f727761726465642d466f72" in r.split(" ! ")[0] else ":no-xff")
     return r.split(" ")[0][:14]
+
+
+def grp_nontrivial(tok, res):
+    return tok[0] == "req" and res.startswith("be=") and not res.startswith("be=-")
+
+
+def grp_class(r):
+    import re
+    if r.startswith("be="):
+        m = re.search(r" ! st=(\d+)", r)
+        m2 = re.search(r"be=(\S+) rt=(\S+)", r)
+        who = "none" if r.startswith("be=-") else ("first" if m2 and m2.group(1) == m2.group(2) else "later-member")
+        return "%s:%s" % (who, m.group(1) if m else "?")
+    return r[:10]
 
 
 def e2e_nontrivial(tok, res):
@@ -117,10 +137,33 @@ PROP = {
         "Frp.C02.limit_source_paths_forward",
         "Frp.C02.limit_cap_blocks",
         "Frp.C02.longHolds_sound",
+        "Frp.C02.group_route_by_all",
+        "Frp.C02.group_route_by_eq_iff",
+        "Frp.C02.group_source_fields",
+        "Frp.C02.group_source_carries_all",
+        "Frp.C02.group_source_route",
+        "Frp.C02.grouping_transparent",
+        "Frp.C02.grouping_member_independent",
+        "Frp.C02.group_drops_rewrite_witness",
+        "Frp.C02.groupHolds_sound",
+        "Frp.C02.err_source_no_body_read",
+        "Frp.C02.err_source_handler",
+        "Frp.C02.err_answer_at_once",
+        "Frp.C02.err_dialled_answer_at_once",
+        "Frp.C02.waitFor_bound_any_tail",
+        "Frp.C02.err_dialled_expect_waits_witness",
+        "Frp.C02.err_answer_bound_any_tail",
+        "Frp.C02.err_answer_by_end",
+        "Frp.C02.err_drain_open_stream_hangs",
+        "Frp.C02.err_drain_unbounded",
+        "Frp.C02.errHolds_sound",
+        "Frp.C02.err_classes_answered",
     ],
     "engines": [
         {"name": "http", "quick_n": 3000, "thorough_n": 12000, "thorough_seeds": 4,
          "nontrivial": nontrivial, "result_class": result_class, "search_seeds": 2, "search_n": 3000},
+        {"name": "httpgrp", "quick_n": 600, "thorough_n": 3000, "thorough_seeds": 4,
+         "nontrivial": grp_nontrivial, "result_class": grp_class, "search_seeds": 2, "search_n": 600},
         {"name": "httpe2e", "quick_n": 60, "thorough_n": 300, "thorough_seeds": 3,
          "nontrivial": e2e_nontrivial, "result_class": e2e_class, "search_seeds": 1, "search_n": 60, "reruns": 1},
     ],
@@ -144,6 +187,22 @@ PROP = {
             "evaluated on what the backend and the user really received; for upgrade / h2c / CONNECT ops tunnelHolds demands: "
             "when a backend received the handshake (it records before it answers 101 / 200) the user gets that status and "
             "every tunnel byte of both directions, otherwise 404 + the not-found page. "
+            "ERROR PATHS AGAINST A BODY IN FLIGHT (op ereq, 65-90 per quick run: every 70th op and two after every reset, "
+            "fresh connection each): hosts without a route (none registered, a route that went away, a host the table does "
+            "not cover) and a route whose CreateConnFn fails x request bodies none / small / Content-Length of which at "
+            "least 256 KiB are still to come (nothing, one byte, a part, all but 256 KiB sent) / chunked stream that has "
+            "delivered more than 256 KiB and stays open / large and complete / Expect: 100-continue (body only after a 100 "
+            "Continue); the user withholds the rest and waits (2 s read deadline, event driven); Frp/Model/HttpErr.lean says "
+            "when the answer is due (net/http's own post-handler read of at most 256 KiB + 1 bytes ASSUMED), errHolds demands "
+            "404 + page inside the bound whenever the model says it comes; uploads net/http itself waits for are skipped. "
+            "httpgrp engine: real vhost.Routers + HTTPReverseProxy + group.HTTPGroupController on the same Routers (the two "
+            "registration paths of server/proxy/http.go), 600 ops per quick run: proxies without group, first and later "
+            "members of 4 groups (wrong key / other domain / other credentials are refused), the first member leaving while "
+            "the group goes on, every route option on its own and all together (hostHeaderRewrite, requestHeaders.set, "
+            "responseHeaders.set, httpUser / httpPassword, locations, routeByHTTPUser), requests as in engine http with right / "
+            "wrong / missing credentials; which member served is taken from the result; groupHolds demands: a live member of "
+            "the route's group, reqHolds / respHolds for the options THAT MEMBER declared, credentials checked (401 exactly "
+            "when they do not fit). "
             "httpe2e engine: a real frps (vhost HTTP port) + real frpc in one process, 2 transport configurations (tcpMux / TLS / "
             "pool on, all off), 38 proxies each: 20 plain http proxies useEncryption x useCompression x bandwidthLimit {none, 8KB "
             "server, 8KB client, 1MB server, 1MB client}, http proxies with the http2http and http2https client plugins and "
@@ -215,11 +274,32 @@ PROP = {
         "files, which fields the http.Transport literals of their ReverseProxies set — are regenerated by "
         "translate/gen_httpfacts.go on every run (abort_source_no_recover, limit_source_no_cap); a recover or a Transport built "
         "in another file is outside that syntactic fact (the engines still drive the real code)",
-        "relational: which idle connection the Transport picked, framing of empty bodies and of answers, Content-Type "
+        "models Frp/Model/HttpGroup.lean (the route an http load-balancing group registers: the member's RouteConfig with "
+        "the connection functions replaced) and Frp/Model/HttpErr.lean (when the not-found answer goes out against a request "
+        "body still in flight: frp's handler does not touch the body; net/http's cw.writeHeader / body.Close read at most "
+        "256 KiB of it first — ASSUMED from go1.23 server.go / transfer.go, sampled by op ereq) written by hand; regenerated "
+        "by translate/gen_httpfacts_routes.go on every run: the field list of vhost.RouteConfig, which fields the route "
+        "built in (*HTTPGroup).Register carries from the member's (whole-struct copy minus the fields assigned afterwards, "
+        "or the keys `K: param.K` of a literal, directly or through a helper of the file), and for every call in "
+        "pkg/util/vhost/http.go that answers with the not-found page whether the block around it or a helper on the way "
+        "contains a `.Body` selector (group_source_fields, group_source_carries_all, err_source_no_body_read); a body read "
+        "hidden behind a function that does not itself reach getNotFoundPageContent is outside that syntactic fact (op ereq "
+        "still drives the real code)",
+        "relational: which member of a group served a request (round robin), which idle connection the Transport picked, framing of empty bodies and of answers, Content-Type "
         "sniffing of unknown-length answers (timer race inside ReverseProxy) are taken from the implementation's result",
     ],
     "assumptions": [
-        "HTTP/1.1 towards the backend, no trailers, no Expect: 100-continue, no gzip answers to Transport-added Accept-Encoding",
+        "HTTP/1.1 towards the backend, no trailers, no gzip answers to Transport-added Accept-Encoding; Expect: 100-continue only "
+        "on the error paths (op ereq): towards a reachable backend it is not driven",
+        "error paths against a body in flight: a user that withholds LESS than 256 KiB of an announced body (or of a chunked "
+        "stream) is waited for by net/http itself before any answer of any handler goes out (cw.writeHeader), and after a "
+        "failed dial a user that insists on its 100 Continue is waited for by the Transport's close of the request body "
+        "(err_dialled_expect_waits_witness; real clients send the body after their own expect timeout): both are skipped, "
+        "counted; a backend that closes early while the upload is still going on races the Transport's write loop and is "
+        "driven only with complete requests (fault q)",
+        "groups: members of one group declare the same options (frp compares only domain, location, routeByHTTPUser, "
+        "httpUser, httpPassword and keeps the first member's RouteConfig for the others); member names are never re-used "
+        "inside a world (the pool key of a group route carries the endpoint name but regID 0)",
         "queries containing ';' or an invalid % escape are re-encoded by httputil.ReverseProxy (cleanQueryParams) before "
         "frp's hook runs: outside the model's domain (skipped, counted); the backend does NOT get such a query unchanged",
         "the four client plugins are driven directly (real plugin Handle, TLS on either side where the plugin "
@@ -263,7 +343,7 @@ PROP = {
 }
 
 META = {
-    "engine": "lean+translator(CodecFacts,HttpFacts)+harness(http,httpe2e)",
+    "engine": "lean+translator(CodecFacts,HttpFacts)+harness(http,httpgrp,httpe2e)",
     "design_ref": "DESIGN.md §6 C02, §7 item 14",
     "technique": "Lean 4 theorems over all requests / header maps / route configs / histories / time lines (per-header-key "
                  "characterisation of the Rewrite and ModifyResponse closures around the standard reverse proxy, "
@@ -295,7 +375,15 @@ META = {
             "SIMULTANEOUS users (about 400 exchanges) through the plain path and the http2http / http2https / https2http / "
             "https2https plugins x useEncryption x useCompression, each user checked for exactly its own answer, + about 30 "
             "mid-exchange faults (dying backend, dying user, killed work connection) and 11 rounds of up to 24 exchanges held "
-            "open at once with a further request that must still be served, through the plain path and every plugin. Concurrency: "
+            "open at once with a further request that must still be served, through the plain path and every plugin, + 65-90 "
+            "error-path exchanges against a body still in flight + 600 ops on the real Routers / HTTPReverseProxy / "
+            "HTTPGroupController over every route option x {no group, first member, later member}. Grouping is transparent to "
+            "every route option: the route a group registers is, field list and copy read from the source, the member's with "
+            "only the connection functions replaced, so backend and user observe through a group what they observe without it "
+            "(a field-by-field route is transparent iff it carries all eight option fields; witness without RewriteHost). The "
+            "not-found answer does not depend on the rest of the request body: no answer site touches req.Body (read from the "
+            "source), so it is out at once for Expect / >= 256 KiB unread and by the arrival of the first 256 KiB + 1 bytes "
+            "whatever follows; a draining handler never answers an open stream (witnesses). Concurrency: "
             "the pooled snappy reader / writer of compressed work connections is a shared resource; with the recycle sites "
             "of client/proxy/proxy.go (read from the source: once, after Join returned; never on the plugin path) no two live "
             "connections ever hold the same object and every Read / Write works on its own stream, for ALL interleavings and "
